@@ -836,6 +836,8 @@ void vrt_fail_alloc_after (int k) { fail_alloc_at = k > 0 ? alloc_count + k : 0;
 void vrt_fail_my_alloc_after (int k) { my_fail_in = k > 0 ? k : 0; }
 /* scenario-side peek at a word of library state for DIRECTING a run (not instrumented, not a scheduling point, not part of race detection) */
 uint32_t vrt_peek32 (const void *p) { return *(const volatile uint32_t *) p; }
+/* the same, but `dflt` if the word lies in a block that has been freed (test and read are one un-interruptible runtime call) */
+uint32_t vrt_peek32_or (const void *p, uint32_t dflt) { return vrt_is_freed (p) ? dflt : *(const volatile uint32_t *) p; }
 int vrt_alloc_count (void) { return alloc_count; }
 void *vrt_malloc (size_t n) {
 	size_t pg = 4096, len;
